@@ -156,14 +156,20 @@ def r3(c):
     fn = repo.func(PATCHING, "make_patch")
     gm = GuardMap(fn)
     app = [x for x in calls_in(fn) if isinstance(x.func, ast.Attribute) and x.func.attr == "append" and norm(x.func.value) == "patch"]
-    if len(app) != 1:
+    if not app:
+        # one-pass form: rows are handed to the tree where they are produced; every such hand-over is an emission point
+        app = [x for x in calls_in(fn) if isinstance(x.func, ast.Attribute) and x.func.attr in ("add", "add_block") and isinstance(x.func.value, ast.Name)
+               and gm.in_loop(x) and not (x.args and isinstance(x.args[0], ast.Constant))]
+    if not app or (len(app) != 1 and not all(x.func.attr in ("add", "add_block") for x in app)):
         raise AnchorError("make_patch: patch.append not found")
 
     def ren(s):
         s = s.replace('"', "'")
         return {"attrs.get('force_commit', False)": "force_commit", "attrs['force_commit']": "force_commit"}.get(s, s)
-    f = gm.formula(app[0], G.GuardEnv(rename=ren))
-    ok = G.implies(f, G.Not(G.And(G.Not(G.Atom("do_commit")), G.Atom("force_commit"))))
+    ok = True
+    for a_ in app:
+        f = gm.formula(a_, G.GuardEnv(rename=ren), alias=True)
+        ok = ok and G.implies(f, G.Not(G.And(G.Not(G.Atom("do_commit")), G.Atom("force_commit"))))
     c.check("C09.R3", ok, repo.loc(m, app[0]), "make_patch/force_commit-skipped", f"entries are collected under {G.show(f)}: a force_commit entry (and its `commit`) is still emitted when do_commit is false",
             key_text="force-commit")
 
